@@ -302,6 +302,10 @@ class TrajectoryStore:
     """Thread ID of active TrajectoryStore instance, if any. Multi-threaded
     access is not allowed. This attribute is used to check for this."""
 
+    _active_in_thread_lock = threading.Lock()
+    """Makes checking and claiming `active_in_thread` atomic, so that two
+    threads racing to create their first store cannot both succeed."""
+
     # Allowed constructor arguments by mode:
     #
     # (' ' = not allowed, X = required, ? = optional)
@@ -374,14 +378,15 @@ class TrajectoryStore:
         """
 
         # Check thread activity: must be single-threaded.
-        if TrajectoryStore.active_in_thread is not None:
-            if TrajectoryStore.active_in_thread != threading.get_ident():
-                raise RuntimeError(
-                    'TrajectoryStore: multiple TrajectoryStore instances '
-                    'active in different threads simultaneously.'
-                )
-        else:
-            TrajectoryStore.active_in_thread = threading.get_ident()
+        with TrajectoryStore._active_in_thread_lock:
+            if TrajectoryStore.active_in_thread is not None:
+                if TrajectoryStore.active_in_thread != threading.get_ident():
+                    raise RuntimeError(
+                        'TrajectoryStore: multiple TrajectoryStore instances '
+                        'active in different threads simultaneously.'
+                    )
+            else:
+                TrajectoryStore.active_in_thread = threading.get_ident()
 
         # File access mode for a TrajectoryStore is fixed: if you need to
         # switch mode, close and reopen the store.
